@@ -248,7 +248,9 @@ func checkAccessors(c *core.Ctx, l *core.Ledger, mod *tmpl.Model, xs map[*tmpl.T
 	// decoded binaries and strings must not be views of memory the (pooled) reader keeps and reuses
 	checkFreshResults(c, l, "FRESH-RESULT", []string{"protocol/binary"})
 	checkWriteFailCauses(c, l)
+	errSide = "write"
 	checkErrKeep(c, l, "ERR-KEEP", []string{"protocol/binary", "wire", "protocol", "envelope"})
+	errSide = ""
 	checkDefaultCtorExists(c, l, "DEFAULT-CTOR")
 	checkTypedefTransparent(c, l, "PRED-ROOT")
 }
